@@ -62,6 +62,47 @@ pub fn exercise(b: &Board, depth: u32) -> u64 {
     it.set_mask(b[!b.turn()]);
     let _ = it.len();
     let _ = b.legals_masked(b[!b.turn()]).count();
+    // masked iteration drained, the mutators, the king's own generator stepped, the checked move
+    // operations on a legal and on an illegal move
+    {
+        let all: Vec<chess_movegen::ChessMove> = b.legals().collect();
+        let mut it = b.legals_masked(b[!b.turn()]);
+        let mut k = 0;
+        while it.next().is_some() && k < 300 {
+            k += 1;
+        }
+        it.set_mask(!chess_bitboard::BitBoard::empty());
+        let _ = it.len();
+        while it.next().is_some() && k < 600 {
+            k += 1;
+        }
+        if let (Some(&first), Some(&last)) = (all.first(), all.last()) {
+            let mut it = b.legals();
+            let _ = it.next();
+            let _ = it.remove_move(last);
+            it.remove(chess_bitboard::BitBoard::from_pos(first.dest));
+            let _ = it.remove_move(first);
+            let _ = (it.len(), it.is_empty(), it.size_hint());
+            let _ = it.clone().count();
+            while it.next().is_some() && k < 900 {
+                k += 1;
+            }
+            let mut copy = *b;
+            let _ = copy.move_mut(first);
+            let mut buffer = *b;
+            let _ = b.move_into(last, &mut buffer);
+            // an illegal triple: the first move's source to its own square, and a promotion piece on it
+            let bad = chess_movegen::ChessMove { source: first.source, dest: first.source, piece: None };
+            let bad2 = chess_movegen::ChessMove { source: first.source, dest: first.dest, piece: if first.piece.is_some() { None } else { Some(chess_bitboard::PromotionPiece::Queen) } };
+            let _ = (b.is_legal(bad), b.is_legal(bad2), b.move_new(bad).is_some(), copy.move_mut(bad2), b.move_into(bad, &mut buffer));
+        }
+        for c in [chess_bitboard::Color::White, chess_bitboard::Color::Black] {
+            let mut it = b.king_legals(c);
+            while it.next().is_some() && k < 1000 {
+                k += 1;
+            }
+        }
+    }
     for m in b.legals() {
         if let Some(c) = b.move_new(m) {
             if depth > 0 {
